@@ -153,6 +153,95 @@ def scheduled(ctx: Ctx, kind: str, drv: LeanDriver) -> None:
         defer.uninstall()
 
 
+def poller_during_stop(ctx: Ctx, kind: str) -> None:
+    """a second runner polls the shared broker while the first one stops: the REAL `_on_stop` (kill and re-route of a claimed
+    invocation), the REAL `get_invocations_to_run` of runner B inserted as one block after every scheduling step of the stop, then
+    the task thread.  Afterwards the invocation is final, or available + queued + un-owned, or has been taken over by B — never
+    available but in no queue (a message consumed while the status was not yet available is lost for good)."""
+    from pynenc.broker.mem_broker import MemBroker
+    from pynenc.orchestrator.base_orchestrator import BaseOrchestrator
+    from pynenc.orchestrator.mem_orchestrator import MemOrchestrator
+    from pynenc.runner.thread_runner import ThreadInfo
+    from harness.sched_sql import PrefixChooser
+
+    app = make_app(kind, ctx.tmp, app_id=f"c11p{kind}", runner_cls="ThreadRunner")
+    task = app.task(T.c11_body, max_retries=2)
+    runner = app.runner
+    runner._on_start()
+    defer = DeferredThreads().install()
+    if kind == "mem":
+        sched: SqlSched = LineSched(line_targets=[MemOrchestrator._atomic_status_transition, MemBroker.route_invocation, MemBroker.retrieve_invocation,
+                                                  BaseOrchestrator.reroute_invocations],
+                                    lock_modules=["pynenc.orchestrator.mem_orchestrator"])
+    else:
+        sched = SqlSched(patch=SQL_PATCH, max_steps=20000)
+    sched.install()
+    ctxA, ctxB = runner.runner_context, rctx("c11-runner-B")
+    app.state_backend.store_runner_context(ctxB) if hasattr(app.state_backend, "store_runner_context") else None
+    n = 0
+    try:
+        for start in ("pending", "finished"):
+            def run_one(chooser, start=start):
+                defer.pending.clear()
+                app.purge()
+                runner.threads = {}
+                task("ok")
+                inv = list(app.orchestrator.get_invocations_to_run(1, ctxA))[0]
+                state = {"done": False, "b": []}
+                if start == "finished":
+                    try:
+                        inv.run(ctxA)
+                    except BaseException:  # noqa: BLE001
+                        pass
+                    state["done"] = True
+                runner.threads = {inv.invocation_id: ThreadInfo(ShimThread(sched, state), inv)}
+
+                def stop_thread() -> None:
+                    runner._on_stop()
+
+                def poller() -> None:
+                    state["b"] += [i.invocation_id for i in app.orchestrator.get_invocations_to_run(1, ctxB)]
+
+                def task_thread() -> None:
+                    if start == "finished":
+                        return
+                    try:
+                        inv.run(ctxA)
+                    except BaseException:  # noqa: BLE001
+                        pass
+                    finally:
+                        state["done"] = True
+                        sched._released()
+
+                run = sched.run([stop_thread, poller, task_thread], chooser)
+                rec = app.orchestrator.get_invocation_status_record(inv.invocation_id)
+                run.meta = (rec.status.value, rec.runner_id, queue_of(app).count(inv.invocation_id), state["b"])  # type: ignore[attr-defined]
+                return run
+
+            steps = len(run_one(PrefixChooser([0] * 5000)).choices)
+            for k in range(0, steps + 1):
+                run = run_one(PrefixChooser([0] * k + [1] * 5000))
+                n += 1
+                ctx.count()
+                ctx.distinct((kind, "poller", start, k))
+                st, owner, q, took = run.meta  # type: ignore[attr-defined]
+                rep = {"kind": "poller-during-stop", "backend": kind, "task_thread": start, "poll_after_step": k, "schedule": run.choices, "status": st, "owner": owner, "queued": q}
+                if run.aborted:
+                    ctx.report(f"stop-did-not-complete[{kind}]:poller", f"[{kind}] the stop did not complete with a second runner polling after step {k}", rep)
+                    continue
+                final = st in ("success", "failed", "concurrency_controlled_final")
+                available = st in ("registered", "rerouted", "retry")
+                taken_over = owner == ctxB.runner_id and st in ("pending", "running")
+                if not (final or taken_over or (available and q >= 1 and owner is None)):
+                    ctx.report(f"stop-leaves[{kind}]:{st}:second-runner-polls", f"[{kind}] runner A stops while runner B polls the broker once (after scheduling step {k} of A's stop, task thread {start}): afterwards the "
+                                                                                f"invocation A had claimed is {st}, owner {owner}, in the queue {q}x, B got {took}: neither final, nor queued and un-owned, nor taken over by B", rep)
+            ctx.sample({"kind": "poller-during-stop", "backend": kind, "task_thread": start, "stop_steps": steps})
+        ctx.notes[f"poller_runs_{kind}"] = n
+    finally:
+        sched.uninstall()
+        defer.uninstall()
+
+
 def realtime(ctx: Ctx, kind: str) -> None:
     """the whole runner in real time: workloads of independent / retrying tasks, stop requested at random moments"""
     from pynenc.invocation.status import InvocationStatus as S
@@ -165,6 +254,11 @@ def realtime(ctx: Ctx, kind: str) -> None:
         runner = app.runner
         th = threading.Thread(target=runner.run, daemon=True)
         th.start()
+        # the property speaks of a stop request "at any moment of its loop": a request that arrives before on_start() has set
+        # `running = True` is overwritten by on_start and is outside the statement (DESIGN 11.4) - wait for the loop to begin
+        t0 = _time.time()
+        while not runner.running and _time.time() - t0 < 10:
+            _time.sleep(0.0005)
         _time.sleep(ctx.rng.choice([0.0, 0.01, 0.03, 0.06]))
         runner.stop_runner_loop()
         th.join(20)
@@ -225,6 +319,7 @@ def run(ctx: Ctx) -> None:
     try:
         for kind in ("mem", "sqlite"):
             scheduled(ctx, kind, drv)
+            poller_during_stop(ctx, kind)
             realtime(ctx, kind)
         waiting_parent(ctx, "mem")
     finally:
@@ -238,6 +333,6 @@ def run(ctx: Ctx) -> None:
 
 
 def replay(data: dict) -> int:
-    print(data.get("what"))
-    print(data.get("replay"))
-    return 0
+    from harness.common import replay_by_rerun
+
+    return replay_by_rerun("C11", run, data)
